@@ -220,12 +220,23 @@ PH = parametrized_class_check(_PHh)
 
 def render(spec):
     out = [HEADER]
+    markers = spec.get("markers", {})
     for name, bases, is_abc in spec["classes"]:
         b = list(bases) or ["_V"]
+        body = "".join(f"    {a} = 1\n" for a in markers.get(name, [])) or "    pass\n"
         if is_abc:
-            out.append(f"class {name}({', '.join(b)}, metaclass=_abc.ABCMeta):\n    pass\n")
+            out.append(f"class {name}({', '.join(b)}, metaclass=_abc.ABCMeta):\n{body}")
         else:
-            out.append(f"class {name}({', '.join(b)}):\n    pass\n")
+            out.append(f"class {name}({', '.join(b)}):\n{body}")
+    for pr in spec.get("protocols", []):
+        # structural ABC: a class is a subclass iff it has the marker attribute
+        out.append(
+            f"class {pr['name']}(_abc.ABC):\n"
+            f"    {pr['attr']} = 1\n"
+            f"    @classmethod\n"
+            f"    def __subclasshook__(cls, C):\n"
+            f"        return hasattr(C, {pr['attr']!r})\n"
+        )
     for abc_name, sub in spec.get("virtual", []):
         out.append(f"{abc_name}.register({sub})\n")
     for h in spec.get("hooks", []):
